@@ -9,7 +9,7 @@ evaluator (R8). Not decided: numeric results (masks, rounding, wrap-around formu
 """
 from armlib import arm_table, base_ty, fold, last_seg, main_match, unq, variants_of
 from db import Cfg, callee, call_args, walk, local_of, int_lit, mir_callee, mir_calls, op_const_int
-from mirterm import Terms, calls_in, params_of, show, strip_overflow, subterms
+from mirterm import Terms, calls_in, params_of, show, strip_overflow, subterms, terms_of
 import panics
 
 EXPR = "il::expression::Expression"
@@ -588,8 +588,19 @@ def r2_r3_r6(db, rep):
         else:
             news = []
             for i, t in mir_calls(body):
-                if mir_callee(t) == CONST + "::new_big":
+                c_ = mir_callee(t) or ""
+                if c_ == CONST + "::new_big":
                     news.append(tm.operand(t["args"][1]))
+                elif c_.startswith(CONST + "::") and c_ in db.mir and c_ != fn:
+                    # a private constructor helper that builds the result at the width it is given
+                    hb_ = db.mir[c_]
+                    htm_ = terms_of(db, c_, {})
+                    ws_ = [htm_.operand(t2["args"][1]) for i2, t2 in mir_calls(hb_) if mir_callee(t2) == CONST + "::new_big"]
+                    ks_ = {w_[1] for w_ in ws_ if isinstance(w_, tuple) and w_[0] == "param"}
+                    if ws_ and len(ks_) == 1 and all(isinstance(w_, tuple) and w_[0] == "param" for w_ in ws_):
+                        k_ = ks_.pop()
+                        if k_ - 1 < len(t["args"]):
+                            news.append(tm.operand(t["args"][k_ - 1]))
             okw = bool(news) and all(bits_origin(w) == 1 for w in news)
             r6.decide(okw, "%s|width" % fn, where,
                       "result is not constructed at self's width: %s" % [show(w) for w in news])
